@@ -54,6 +54,8 @@ type Program struct {
 	Repeat     int
 	// SlowMicros delays the underlying agent's answers to sign and unknown (forwarded) requests.
 	SlowMicros int
+	// Faults (chaos programs only): the underlying agent answers some requests with a failure
+	Faults []vh.FaultRule
 }
 
 // own keys: goroutine g uses ownKeys[2g+k] — disjoint for the first 7 goroutines x 2 keys; the other
@@ -114,6 +116,15 @@ func gen(t *rapid.T) Program {
 			r.Ops = append(r.Ops, op)
 		}
 		p.Routines = append(p.Routines, r)
+	}
+	if p.Chaos && rapid.Bool().Draw(t, "chaosFaults") {
+		// the underlying agent refuses a few requests somewhere in the run: operations may then fail, but
+		// every one of them must still come back and nothing may be stuck afterwards
+		nf := rapid.IntRange(1, 3).Draw(t, "nfaults")
+		for i := 0; i < nf; i++ {
+			p.Faults = append(p.Faults, vh.FaultRule{Index: -1, Code: rapid.SampledFrom([]int{vh.CodeList, vh.CodeList, vh.CodeList, vh.CodeSign, vh.CodeRemove, vh.CodeAddConstrained, 200}).Draw(t, fmt.Sprintf("faultCode%d", i)),
+				Kind: "fail", Skip: rapid.IntRange(0, 6).Draw(t, fmt.Sprintf("faultSkip%d", i)), Remaining: rapid.IntRange(1, 3).Draw(t, fmt.Sprintf("faultN%d", i))})
+		}
 	}
 	if p.Chaos {
 		var ops []GOp
@@ -204,6 +215,9 @@ func runOnce(prog Program, rep int) (err error, readPurge bool) {
 		return vh.Errf("shimagent.New: %v", serr), false
 	}
 	served := yubiWrap{shim}
+	if len(prog.Faults) > 0 {
+		p.SetPlan(append([]vh.FaultRule(nil), prog.Faults...))
+	}
 
 	universe := map[string]bool{string(vh.SSHPub(sharedKey).Marshal()): true}
 	for _, k := range ownKeys {
@@ -434,8 +448,15 @@ func runOnce(prog Program, rep int) (err error, readPurge bool) {
 		return viol.err, false
 	}
 	// ---- final state ----
-	_ = shim.Unlock([]byte("pw")) // no-op unless the chaos goroutine left it locked
-	ks, lerr := shim.List()
+	p.SetPlan(nil)
+	var ks []*agent.Key
+	var lerr error
+	if stuck := vh.CatchWithin(watchdog, func() {
+		_ = shim.Unlock([]byte("pw")) // no-op unless the chaos goroutine left it locked
+		ks, lerr = shim.List()
+	}); stuck != nil {
+		return vh.Errf("repetition %d: the final listing did not come back (%v): the agent is stuck after the run", rep, stuck), false
+	}
 	if lerr != nil {
 		return vh.Errf("repetition %d: final listing failed: %v", rep, lerr), false
 	}
@@ -550,7 +571,7 @@ func exec(prog Program) (vh.Outcome, error) {
 	return out, nil
 }
 
-const rule = "concurrent programs: 2..16 goroutines x 1..8 operations, each goroutine calling one shim agent directly or through its own client connection served by yubiagent.ServeAgent, both upstream modes, with 0..3 expired certificates (purged inside the race window) and 0..3 YSSHCA certificates preloaded. Read-type operations (list, signers, sign with a shared key, extension, raw forward) are free; mutations follow per-goroutine life cycles of the goroutine's own keys (add, add-hardware-certificate, sign with the key, sign with the in-memory hardware certificate (directly and through the Signer object that Signers() returns for it), remove hardware certificate, remove key); the underlying agent answers sign / forwarded / extension requests with a drawn latency of 0..3 ms so that overlapping requests really overlap, so that the final state is the same for every sequential order; a quarter of the programs add a chaos goroutine (remove-all, lock, unlock), for which only reply matching, completion and containment are checked. Every request carries a unique tag (data to sign, extension payload, forward body); Gosched perturbation is drawn per operation; each program is repeated (quick 3, thorough 10). Oracles: race detector (halt_on_error), no fatal runtime error, signatures verify over the caller's own data, extension / forward replies echo the caller's tag, own-key operations succeed or fail as in the goroutine's own order, all operations complete within 60 s, final keyring and final listing equal the order-independent expectation, nothing nobody added appears. Non-trivial: >= 2 goroutines with at least one operation writing shared state."
+const rule = "concurrent programs: 2..16 goroutines x 1..8 operations, each goroutine calling one shim agent directly or through its own client connection served by yubiagent.ServeAgent, both upstream modes, with 0..3 expired certificates (purged inside the race window) and 0..3 YSSHCA certificates preloaded. Read-type operations (list, signers, sign with a shared key, extension, raw forward) are free; mutations follow per-goroutine life cycles of the goroutine's own keys (add, add-hardware-certificate, sign with the key, sign with the in-memory hardware certificate (directly and through the Signer object that Signers() returns for it), remove hardware certificate, remove key); the underlying agent answers sign / forwarded / extension requests with a drawn latency of 0..3 ms so that overlapping requests really overlap, so that the final state is the same for every sequential order; a quarter of the programs add a chaos goroutine (remove-all, lock, unlock) and, half of those, an underlying agent that refuses 1..3 requests somewhere in the run; for these only reply matching, completion (also of the final listing) and containment are checked. Every request carries a unique tag (data to sign, extension payload, forward body); Gosched perturbation is drawn per operation; each program is repeated (quick 3, thorough 10). Oracles: race detector (halt_on_error), no fatal runtime error, signatures verify over the caller's own data, extension / forward replies echo the caller's tag, own-key operations succeed or fail as in the goroutine's own order, all operations complete within 60 s, final keyring and final listing equal the order-independent expectation, nothing nobody added appears. Non-trivial: >= 2 goroutines with at least one operation writing shared state."
 
 func TestC11Concurrent(t *testing.T) {
 	vh.Run(t, vh.Spec[Program]{Property: "C11", Name: "TestC11Concurrent", Rule: rule, Gen: gen, Exec: exec, Journal: true})
